@@ -10,6 +10,7 @@ RULE = ("Every exported struct type of the library (21, listed in the specificat
         "under recover() and a deadline; the same methods on the value a parser returns together with an error for EVERY truncation point of "
         "well-formed encodings of every parsed structure (2-4 destination types). Verify*/VerifySignature must not report success. "
         "Non-trivial = a type whose methods were all called / a reader with at least one partial value.")
+RULE += (' Partial values also come from structure-aware mutation (every offset x boundary values) and from mutate-then-sign sweeps over genuinely signed skeletons (SignedMutSweep): what comes back with an error never verifies.')
 ASSUME = [common.TRUSTED, "zero value means T{} and &T{}; a nil *T is not a value of the structure type and is not called",
           "methods with parameters are out of the property's scope"]
 META = {
